@@ -13,6 +13,12 @@ THEOREMS = [
     "JanetModel.Spec.opreduce_chain_computes",
     "JanetModel.Props.C15.opreduce_rows_ok",
     "JanetModel.Props.C15.variadic_emitted_eq_generic",
+    "JanetModel.Spec.cmpSem_eq_goInline",
+    "JanetModel.Spec.cmp_jump_step",
+    "JanetModel.Spec.cmp_chain_computes",
+    "JanetModel.Props.C15.compreduce_rows_ok",
+    "JanetModel.Props.C15.subtract_is_opreduce",
+    "JanetModel.Props.C15.comparison_emitted_eq_generic",
     "JanetModel.Bytecode.VM.imm_agrees",
     "JanetModel.Props.C15.inline_eq_generic_row",
     "JanetModel.Props.C15.rows_agree_partial",
